@@ -284,6 +284,15 @@ def build_driver(name):
     return exe
 
 
+def _die_with_parent():
+    """a driver must not outlive the check that started it (PR_SET_PDEATHSIG = 1, SIGKILL)"""
+    try:
+        import ctypes
+        ctypes.CDLL('libc.so.6').prctl(1, 9)
+    except Exception:
+        pass
+
+
 def run_driver(exe, lines, timeout=3000, shards=None):
     """Feed lines to the driver; one output line per input line. Sharded over
     processes when large."""
@@ -297,7 +306,7 @@ def run_driver(exe, lines, timeout=3000, shards=None):
         chunk = lines[i:i + size]
         p = subprocess.Popen([exe], stdin=subprocess.PIPE,
                              stdout=subprocess.PIPE, stderr=subprocess.PIPE,
-                             text=True)
+                             text=True, preexec_fn=_die_with_parent)
         procs.append((p, chunk))
     # write/read using communicate in threads to avoid deadlocks
     import threading
